@@ -11,20 +11,22 @@ THEOREMS = ['MindsVerif.Props.C17.' + n for n in (
     # T17.2 own code: generic, and for the live tables
     'C17_own_tables', 'C17_repaired_clean', 'C17_repaired_own_tables', 'C17_review_live_tables', 'C17_review_live_own_tables',
     'C17_cast_ok', 'C17_param_ok', 'C17_unop_iff', 'C17_table_position', 'C17_create_table_ok', 'C17_insert_dup_iff',
+    'C17_func_name_ok', 'C17_func_post_iff', 'C17_live_func_names',
     # T17.3 mutation
     'C17_no_mutation',
     # the property: live tables, exactness, generic forms, refutation of the unconditional statement
     'C17_review_live', 'C17_live_exact', 'C17_exact', 'C17_partial', 'C17_partial_repaired', 'C17_full_false',
     # repaired constructs on the live tables; regression theorems about the OLD tables; postgres scanner
     'C17_fixed_constructs', 'C17_fixed_cast_fallback', 'C17_fixed_serial', 'C17_fixed_join_type', 'C17_repaired_witnesses',
-    'C17_regression_tuple_operand', 'C17_regression_insert_dup', 'C17_witness_pg_backtick', 'C17_live_pg', 'C17_pg_scanner_identity',
+    'C17_regression_tuple_operand', 'C17_regression_insert_dup', 'C17_regression_func_pyattr', 'C17_witness_pg_backtick', 'C17_live_pg', 'C17_pg_scanner_identity',
     'pins', 'core_types')]
 ASSUME = [
     'the theorems are about the hand models of Model/Fallback.lean (wrapper incl. the postgres back-tick scanner, own-code exception '
     'classes of get_query / prepare_* / to_table / to_expression / to_function / get_type, the column loop of prepare_create_table); '
     'tie = this run: wrapper correspondence (fallback-on result predicted from the fallback-off behaviour and str(ast)), own-site '
     'exception correspondence in both directions, column-state correspondence, the tables and three probed behaviours '
-    '(tupleIsList, dupExc, pgKeepsLiteral) regenerated from the live module',
+    '(tupleIsList, dupExc, pgKeepsLiteral), the attribute names of the Python object sa.func with what getattr yields for them '
+    '(funcPyAttrs, funcDunderRule, funcGuard) regenerated from the live module',
     'what SQLAlchemy itself raises (function arities, names, type constructor arguments, compile-time errors) is NOT in any theorem: '
     'hypothesis `saQuiet` of C17_review_live / C17_partial; C17_live_exact shows it is exactly one of the two remaining failure modes; '
     'covered only by the impl-level probe of this run (open finding: VARBINARY without length on MySQL, third-party)',
@@ -46,9 +48,10 @@ UNMODELLED_OWN = [
     ('TypeError', 'to_expression', r'takes no arguments|positional argument|unexpected keyword|missing \d+ required'),
     ('TypeError', 'to_function', r''),
     ('TypeError', 'prepare_create_table', r'takes no arguments|positional argument|unexpected keyword'),
+    ('TypeError', 'prepare_update', r'got multiple values for argument'),     # a SET column named like a parameter of sqlalchemy's values()
     # guards that translate a SQLAlchemy signature / naming failure into NotImplementedError:
     # they belong to "SQLAlchemy's part" of the model (`saQuiet`), wherever they are raised
-    ('NotImplementedError', r'op|to_function', r'^Function '),
+    ('NotImplementedError', r'op|to_function', r'^Function (?!name:)'),     # the NAME check is modelled (funcNameRaise)
     ('NotImplementedError', r'to_expression|prepare_create_table', r'^Type '),
     ('NotImplementedError', r'get_table_name', r'^Table name: '),
     ('NotImplementedError', r'to_column', r'^Empty identifier part'),
@@ -133,7 +136,7 @@ class Ser:
             r = '( union %d %s %s %s )' % (isinstance(t, ast.Union), self.al(t), self.node(t.left), self.node(t.right))
         elif isinstance(t, ast.Function):
             kids = [t.from_arg] if t.from_arg is not None else t.args
-            r = '( func %d %d %s %s )' % (bool(t.distinct), t.from_arg is not None, self.al(t),
+            r = '( func %s %d %d %s %s )' % (hx(t.op), bool(t.distinct), t.from_arg is not None, self.al(t),
                                           ' '.join(self.node(k) for k in kids))
         elif isinstance(t, ast.BinaryOperation):
             inop = t.op.lower() in ('in', 'not in')
@@ -323,6 +326,26 @@ def type_names(x, acc=None, depth=0):
     return acc
 
 
+def func_names(x, acc=None, depth=0):
+    """names of the Function nodes of a tree"""
+    from mindsdb_sql.parser.ast.base import ASTNode
+    acc = set() if acc is None else acc
+    if depth > 200:
+        return acc
+    if type(x).__name__ == 'Function' and isinstance(getattr(x, 'op', None), str):
+        acc.add(x.op)
+    if isinstance(x, ASTNode) or type(x).__name__ == 'TableColumn':
+        for v in vars(x).values():
+            func_names(v, acc, depth + 1)
+    elif isinstance(x, (list, tuple)):
+        for v in x:
+            func_names(v, acc, depth + 1)
+    elif isinstance(x, dict):
+        for v in x.values():
+            func_names(v, acc, depth + 1)
+    return acc
+
+
 def exc_class(e):
     from sqlalchemy.exc import SQLAlchemyError
     from mindsdb_sql.render.sqlalchemy_render import RenderError
@@ -384,6 +407,8 @@ def kf_match(k, f):
         # a tree that names one of the listed non-type keys of types_map, failing inside SQLAlchemy's type machinery
         return (f.get('exc') in s.get('excs', []) and bool(set(s['type_names']) & set(f.get('types', [])))
                 and re.fullmatch(s.get('func_re', ''), f.get('func', '')) is not None)
+    if f['kind'] == 'raise' and 'func_names' in s and not (set(s['func_names']) & set(f.get('funcs', []))):
+        return False        # the finding is about trees that call one of the listed function names
     if f['kind'] == 'raise':
         return (s.get('exc') == f.get('exc') and re.fullmatch(s.get('func_re', ''), f.get('func', '')) is not None
                 and re.search(s.get('file_re', ''), f.get('file', '')) is not None
@@ -449,11 +474,13 @@ def probe_tree(d, text, a, S=None):
                                      **{'class': 'mutation/%s/%s' % (type(a).__name__, ','.join(paths))}))
                 for f in fails:
                     f['types'] = sorted(type_names(a))
+                    f['funcs'] = sorted(func_names(a))
                 return fails, obs, True
     if fails:
-        tn = sorted(type_names(a))
+        tn, fn = sorted(type_names(a)), sorted(func_names(a))
         for f in fails:
             f['types'] = tn
+            f['funcs'] = fn
     return fails, obs, False
 
 
@@ -672,9 +699,36 @@ def name_shapes(d):
     return out
 
 
+def pyname_shapes(d):
+    """names drawn from the attribute names of the Python objects the renderer looks names up on — dir(sa.func), other dunder
+    names, names ending in `_` (sa.func strips one underscore), `opts`, the names of sqlalchemy.types (types and helpers),
+    Python keywords and builtins — as function names (0 / 1 / 2 / DISTINCT arguments, with namespace), type names (CAST,
+    CREATE TABLE) and column / alias / table names"""
+    import keyword
+    import sqlalchemy as sa
+    fnames = sorted(set(dir(sa.func)) | {'__a__', '__foo', '__', '___', '__x_', '_', 'a_', 'count_', 'opts_', '_x', 'x__', 'opts',
+                                         '__len__', '__iter__', '__bool__', '__getitem__', '__mro__', '__name__', '__slots__',
+                                         'mro', 'self', 'cls', 'label', 'type', 'name', 'c', 'columns', 'select', 'filter'})
+    tnames = sorted(dir(sa.types)) + ['__class__', '__repr__', 'type', 'object', 'str']
+    words = sorted(set(keyword.kwlist) | {'print', 'len', 'id', 'type', 'object', 'self', 'None_', '__dict__', '__class__'})
+    out = []
+    for n in fnames + (words if d == 'mindsdb' else []):
+        out += ['select %s()' % n, 'select %s(1)' % n, 'select %s(a, b) from t' % n, 'select %s(distinct a) from t' % n]
+        if d == 'mindsdb':
+            out += ['select ns.%s(a) from t' % n, 'select * from t where %s() = %s(a) order by %s()' % (n, n, n)]
+    for n in (tnames if d == 'mindsdb' else tnames[::3]):
+        out += ['select cast(a as %s) from t' % n, 'select cast(a as %s) from t' % n.lower(), 'create table t (c %s)' % n]
+    for n in (words + [x for x in fnames if x.startswith('_')] if d == 'mindsdb' else []):
+        out += ['select %s from t' % n, 'select a as %s from t' % n, 'select * from %s' % n, 'select t.%s from t' % n,
+                'update t set %s = 1' % n, 'insert into t (%s) values (1)' % n]
+    return out
+
+
 def case_stream(d, rng, n_mut, n_sent, n_func):
     for s in SHAPES:
         yield dict(src='shape', text=s)
+    for s in pyname_shapes(d):
+        yield dict(src='pynames', text=s)
     for s in name_shapes(d):
         yield dict(src='names', text=s)
     for s in type_shapes(d):
@@ -700,7 +754,7 @@ def run(chk):
     warnings.simplefilter('ignore')
     quick = chk.tier == 'quick'
     deep = (not quick) or bool(chk.broken())
-    n_mut, n_sent, n_func = (400, 700, 100) if not deep else (6000, 9000, 600)
+    n_mut, n_sent, n_func = (300, 500, 100) if not deep else (6000, 9000, 600)
     if quick and deep:
         n_mut, n_sent, n_func = 1500, 2500, 200
 
